@@ -85,24 +85,27 @@ def judge(case, res, table):
             continue
         if case.kind in ("valid", "cocktail"):
             if r["sig"]:
-                probs.append(("valid-signal:" + t, "valid schema: %s; stderr: %s" % (label, r["err"][-300:]), t))
+                probs.append(("valid-signal", "valid schema: %s; stderr: %s" % (label, r["err"][-300:]), t))
             elif r["rc"] != 0 or r["errors"]:
-                probs.append(("valid-rejected:" + t, "valid schema: %s; stderr: %s" % (label, r["err"][-400:]), t))
+                probs.append(("valid-rejected", "valid schema: %s; stderr: %s" % (label, r["err"][-400:]), t))
         elif case.kind == "listed":
             if r["sig"]:
-                probs.append(("fault-signal:%s:%s" % (case.cls, t), "%s fault: %s; stderr: %s" % (case.cls, label, r["err"][-300:]), t))
+                probs.append(("fault-signal:%s" % case.cls, "%s fault: %s; stderr: %s" % (case.cls, label, r["err"][-300:]), t))
+            elif r["rc"] == 0:
+                probs.append(("fault-accepted:%s" % case.cls, "%s fault: %s; output: %s" % (case.cls, label, (r["out"] + r["err"])[-300:]), t))
             else:
-                if r["rc"] == 0:
-                    probs.append(("fault-accepted:%s:%s" % (case.cls, t), "%s fault: %s; output: %s" % (case.cls, label, (r["out"] + r["err"])[-300:]), t))
                 if r["errors"] == 0:
-                    probs.append(("fault-no-error-diagnostic:%s:%s" % (case.cls, t), "%s fault: %s; stderr: %s" % (case.cls, label, r["err"][-300:]), t))
+                    probs.append(("fault-rejected-without-error-diagnostic:%s" % case.cls, "%s fault: %s; stderr: %s" % (case.cls, label, r["err"][-300:]), t))
                 if r["banners"]:
-                    probs.append(("fault-success-banner:%s:%s" % (case.cls, t), "%s fault: %s but printed %s" % (case.cls, label, r["banners"]), t))
+                    probs.append(("fault-success-banner:%s" % case.cls, "%s fault: %s but printed %s" % (case.cls, label, r["banners"]), t))
         if not r["sig"] and not r["timeout"] and (r["rc"] != 0) != (r["errors"] > 0):
-            probs.append(("status-vs-error:" + t, "%s [%s] exit status %s but %d ERROR diagnostics (%d warnings); stderr: %s"
+            probs.append(("status-vs-error", "%s [%s] exit status %s but %d ERROR diagnostics (%d warnings); stderr: %s"
                           % (t, case.kind, r["rc"], r["errors"], r["warnings"], r["err"][-300:]), t))
     if case.kind == "seed":
-        verdicts = set((r["rc"] != 0) if not r["sig"] else "signal" for r in res.values())
+        for t, r in res.items():
+            if r["sig"]:
+                probs.append(("valid-signal", "shipped schema: %s: %s; stderr: %s" % (t, r["status"], r["err"][-300:]), t))
+        verdicts = set((r["rc"] != 0) for r in res.values() if not r["sig"])
         if len(verdicts) > 1:
             probs.append(("seed-verdicts-differ", "shipped schema: %s" % {t: r["status"] for t, r in res.items()}, "all"))
     return probs
@@ -116,7 +119,7 @@ def crash_frame(tool, text, exppp_o):
         d = sc.fresh("g")
         args = F.tool_args(tool, p) if (tool != "exppp" or exppp_o) else [p]
         try:
-            g = subprocess.run(["gdb", "-batch", "-ex", "run", "-ex", "bt 40", "--args", build.tool("plain", tool)] + args, cwd=d,
+            g = subprocess.run(["gdb", "-batch", "-ex", "set disable-randomization off", "-ex", "run", "-ex", "bt 40", "--args", build.tool("plain", tool)] + args, cwd=d,
                                capture_output=True, timeout=120)
         except (subprocess.TimeoutExpired, OSError):
             return "?"
@@ -207,7 +210,7 @@ def work_base(arg):
             ev.case(common.chash(case.text), case.kind in ("listed", "unlisted"), classes=classes, sample=sample)
             ev.bump("tool-runs", len(res))
             for sig, det, tool in judge(case, res, table):
-                if f9_present and sig.startswith("valid-signal:exp2python") and has_attribute(case.text):
+                if f9_present and sig == "valid-signal" and tool == "exp2python" and has_attribute(case.text):
                     sig = F9_SIG      # while F9 is in the tree every such crash is attributed to it (cannot be told apart cheaply)
                 fails.append({"sig": sig, "what": det, "text": case.text, "kind": case.kind, "cls": case.cls, "tool": tool, "exppp_o": exppp_o,
                               "crash": ("signal" in sig), "f9_present": f9_present})
@@ -226,7 +229,7 @@ def recheck(f):
         res = run_all(table, sc, f["text"], tools, f.get("exppp_o", True), "confirm")
         out = []
         for sig, det, tool in judge(case, res, table):
-            if f.get("f9_present") and sig.startswith("valid-signal:exp2python") and has_attribute(f["text"]):
+            if f.get("f9_present") and sig == "valid-signal" and tool == "exp2python" and has_attribute(f["text"]):
                 sig = F9_SIG
             out.append((sig, det))
         return out
@@ -241,7 +244,7 @@ def main(tier, seed):
     f9_known = findings.match(PROP, F9_SIG) is not None
     f9_present = f9_probe()
     ev.extra["finding_F9_present_in_tree"] = f9_present
-    n = 90 if tier == "quick" else 900
+    n = 210 if tier == "quick" else 1500
     srcs = M.sources(common.sub_seed(seed, PROP, "schemas"), n, {"expgen": {"max_ent": 8, "max_typ": 6}})
     srcs += M.sources(common.sub_seed(seed, PROP, "noattr"), n // 3, {"expgen": NOATTR_CFG}, profile="expgen")
     for s in srcs[-(n // 3):]:
@@ -267,9 +270,9 @@ def main(tier, seed):
     # root-cause buckets: crashes by innermost repository frame (one gdb run per pre-bucket), the rest by their signature
     pre = {}
     for f in fails:
-        pre.setdefault(f["sig"], []).append(f)
+        pre.setdefault((f["sig"], f["tool"] if f["crash"] else ""), []).append(f)
     by_sig = {}
-    for sig, fs in pre.items():
+    for (sig, _tool), fs in pre.items():
         fs.sort(key=lambda f: len(f["text"]))
         if fs[0]["crash"] and sig != F9_SIG:
             fn = crash_frame(fs[0]["tool"], fs[0]["text"], fs[0]["exppp_o"])
@@ -313,7 +316,7 @@ def main(tier, seed):
     for fid in ev.known:
         e = [x for x in findings.entries if x.get("id") == fid]
         common.print_known(PROP, e[0]["what"] if e else fid)
-    min_cases = 1500 if tier == "quick" else 15000
+    min_cases = 4000 if tier == "quick" else 30000
     if ev.evaluations < min_cases and rc == 0:
         print("machinery failure: only %d cases executed" % ev.evaluations)
         rc = 3
